@@ -145,6 +145,77 @@ fn lean_error(e: &Error) -> String {
     }
 }
 
+
+/// A well-formed value for each property identifier of MQTT 5.0 §2.2.2.2 (wire type from the
+/// standard's table; values chosen inside every per-property range restriction).
+fn std_property(id: u8) -> Option<Vec<u8>> {
+    let one_byte = [0x01u8, 0x17, 0x19, 0x24, 0x25, 0x28, 0x29, 0x2a];
+    let two_byte = [0x13u8, 0x21, 0x22, 0x23];
+    let four_byte = [0x02u8, 0x11, 0x18, 0x27];
+    let strings = [0x03u8, 0x08, 0x09, 0x12, 0x15, 0x16, 0x1a, 0x1c, 0x1f];
+    let mut v = vec![id];
+    if one_byte.contains(&id) {
+        v.push(1);
+    } else if two_byte.contains(&id) {
+        v.extend_from_slice(&[0, 1]);
+    } else if four_byte.contains(&id) {
+        v.extend_from_slice(&[0, 0, 0, 1]);
+    } else if strings.contains(&id) {
+        v.extend_from_slice(&[0, 1, b'a']);
+    } else if id == 0x0b {
+        v.push(1);
+    } else if id == 0x26 {
+        v.extend_from_slice(&[0, 1, b'a', 0, 1, b'b']);
+    } else {
+        return None;
+    }
+    Some(v)
+}
+
+/// The smallest frame of each property-carrying position with the given property section.
+fn host_frame(host: &str, props: &[u8]) -> Vec<u8> {
+    let mut section = vec![props.len() as u8];
+    section.extend_from_slice(props);
+    let (first, body): (u8, Vec<u8>) = match host {
+        "connect" => (0x10, [&[0, 4, b'M', b'Q', b'T', b'T', 5, 0, 0, 0][..], &section, &[0, 0]].concat()),
+        "will" => (0x10, [&[0, 4, b'M', b'Q', b'T', b'T', 5, 4, 0, 0, 0, 0, 0][..], &section, &[0, 1, b't', 0, 0]].concat()),
+        "connack" => (0x20, [&[0, 0][..], &section].concat()),
+        "publish" => (0x30, [&[0, 1, b't'][..], &section].concat()),
+        "puback" => (0x40, [&[0, 1, 0][..], &section].concat()),
+        "pubrec" => (0x50, [&[0, 1, 0][..], &section].concat()),
+        "pubrel" => (0x62, [&[0, 1, 0][..], &section].concat()),
+        "pubcomp" => (0x70, [&[0, 1, 0][..], &section].concat()),
+        "subscribe" => (0x82, [&[0, 1][..], &section, &[0, 1, b't', 0]].concat()),
+        "suback" => (0x90, [&[0, 1][..], &section, &[0]].concat()),
+        "unsubscribe" => (0xa2, [&[0, 1][..], &section, &[0, 1, b't']].concat()),
+        "unsuback" => (0xb0, [&[0, 1][..], &section, &[0]].concat()),
+        "disconnect" => (0xe0, [&[0][..], &section].concat()),
+        "auth" => (0xf0, [&[0][..], &section].concat()),
+        _ => unreachable!(),
+    };
+    let mut f = vec![first, body.len() as u8];
+    f.extend_from_slice(&body);
+    f
+}
+
+pub const PROP_HOSTS: [&str; 14] =
+    ["connect", "will", "connack", "publish", "puback", "pubrec", "pubrel", "pubcomp", "subscribe", "suback", "unsubscribe", "unsuback", "disconnect", "auth"];
+
+/// Which of the standard's property identifiers the real decoder accepts at each property-carrying
+/// position: one well-formed property in the smallest frame of that kind, decoded by `Packet::decode`.
+fn prop_allowed(host: &str) -> (bool, Vec<u8>) {
+    let base_ok = matches!(v5::Packet::decode(&host_frame(host, &[])), Ok(Some(_)));
+    let mut ids = Vec::new();
+    for id in 0..=255u8 {
+        if let Some(p) = std_property(id) {
+            if matches!(v5::Packet::decode(&host_frame(host, &p)), Ok(Some(_))) {
+                ids.push(id);
+            }
+        }
+    }
+    (base_ok, ids)
+}
+
 pub fn gen_tables(full_scan: bool) -> String {
     let mut out = String::new();
     out.push_str("/-\n  GENERATED by `harness gen-tables` from the code in /repo — do not edit.\n  Every table is the result of running the real function over its whole domain.\n-/\nimport Mqtt.Gen.Kinds\n\nnamespace Mqtt.Gen\n\n");
@@ -271,6 +342,47 @@ pub fn gen_tables(full_scan: bool) -> String {
     writeln!(out, "  | .disconnectReason => {}", v5::DisconnectReasonCode::NormalDisconnect as u8).unwrap();
     writeln!(out, "  | .authReason => {}", v5::AuthReasonCode::Success as u8).unwrap();
     out.push_str("  | _ => 0\n\n");
+
+    // property identifiers accepted at each property-carrying position (probe: one well-formed property)
+    out.push_str("def propHostDecodes : PropHost → Bool\n");
+    for h in PROP_HOSTS {
+        writeln!(out, "  | .{} => {}", h, prop_allowed(h).0).unwrap();
+    }
+    out.push_str("\ndef propAllowed : PropHost → List UInt8\n");
+    for h in PROP_HOSTS {
+        let ids: Vec<String> = prop_allowed(h).1.iter().map(|i| i.to_string()).collect();
+        writeln!(out, "  | .{} => [{}]", h, ids.join(", ")).unwrap();
+    }
+    out.push('\n');
+
+    // v5 subscription-options byte and v3 requested-QoS byte: all 256 values in a one-filter SUBSCRIBE,
+    // decoded fields (max_qos, no_local, retain_as_published, retain_handling) and the byte the
+    // encoder writes back for them
+    out.push_str("def subOptsV5 : List (Option (UInt8 × Bool × Bool × UInt8 × UInt8)) := [\n");
+    for b in 0..=255u8 {
+        let row = match v5::Packet::decode(&[0x82, 7, 0, 1, 0, 0, 1, b't', b]) {
+            Ok(Some(v5::Packet::Subscribe(sub))) if sub.topics.len() == 1 => {
+                let o = sub.topics[0].1;
+                let back = v5::Packet::Subscribe(sub.clone()).encode().map(|e| *e.as_ref().last().unwrap()).unwrap_or(255);
+                format!("some ({}, {}, {}, {}, {})", o.max_qos as u8, o.no_local, o.retain_as_published, o.retain_handling as u8, back)
+            }
+            _ => "none".to_string(),
+        };
+        writeln!(out, "  {}{}", row, if b == 255 { "" } else { "," }).unwrap();
+    }
+    out.push_str("]\n\ndef subQosV3 : List (Option (UInt8 × UInt8)) := [\n");
+    for b in 0..=255u8 {
+        let row = match v3::Packet::decode(&[0x82, 6, 0, 1, 0, 1, b't', b]) {
+            Ok(Some(v3::Packet::Subscribe(sub))) if sub.topics.len() == 1 => {
+                let q = sub.topics[0].1 as u8;
+                let back = v3::Packet::Subscribe(sub.clone()).encode().map(|e| *e.as_ref().last().unwrap()).unwrap_or(255);
+                format!("some ({}, {})", q, back)
+            }
+            _ => "none".to_string(),
+        };
+        writeln!(out, "  {}{}", row, if b == 255 { "" } else { "," }).unwrap();
+    }
+    out.push_str("]\n\n");
 
     // header tables
     out.push_str("def headerV3 : List (Except Error HeaderRow) := [\n");
